@@ -2587,8 +2587,9 @@ class Scan(Generic[X, R], GFI[X, R]):
         )
 
         total_weight = jnp.sum(weights)
-        # discards will be vectorized, so we need to handle them appropriately
-        any_discards = jnp.any(jtu.tree_map(lambda x: x is not None, discards))
+        # discards are stacked over the steps; unselected addresses hold None
+        # (no leaves), so there is a discard iff any array leaf is present.
+        any_discards = len(jtu.tree_leaves(discards)) > 0
 
         new_tr = ScanTr(self, (args, kwargs), new_traces, final_carry, outs)
         return new_tr, total_weight, discards if any_discards else None
